@@ -7,6 +7,8 @@ EXTENDS Props
 GhostInit(g) ==
     [supply0 |-> g.post.supply, reward0 |-> g.post.pool.reward, claimable0 |-> ClaimableMilli(g.post),
      claimedNode |-> 0, dustq |-> 0, dustr |-> 0, cfg |-> g.cfg, start |-> TRUE,
+     handed |-> [i \in 1..Len(SelectSeq(g.post.orders, LAMBDA o : o.status # OPending)) |->
+                   LET o == SelectSeq(g.post.orders, LAMBDA o : o.status # OPending)[i] IN [id |-> o.id, h |-> o.created]],
      net |-> [i \in 1..Len(g.post.pledges) |->
                 [a |-> g.post.pledges[i].a,
                  v |-> DebtOf(g.post, g.post.pledges[i].a) - SumSeq(CompletedShardsOf(g.post, g.post.pledges[i].a), LAMBDA sh : sh.pledge)]],
@@ -46,7 +48,11 @@ GhostStep(g, x) ==
                      ELSE Delta(x, a)
             IN IF d = 0 /\ ~Has(acc, "a", a) THEN acc ELSE Put(acc, "a", [a |-> a, v |-> NetOf([net |-> acc], a) + d])
         net2 == FoldLeft(netStep, g.net, SetToSeq(accs))
-    IN [g EXCEPT !.net = net2, !.grants = gr2, !.earn = earn2, !.claimedNode = @ + (IF Kind(x) = "Claim" /\ Ok(x) THEN -Delta(x, "m_node") ELSE 0),
+        \* hand-over heights: an order seen for the first time with shards assigned (status other than pending)
+        hnd1 == SelectSeq(g.handed, LAMBDA e : HasOrder(x.post, e.id))
+        hnd2 == hnd1 \o [i \in 1..Len(SelectSeq(x.post.orders, LAMBDA o : o.status # OPending /\ ~Has(hnd1, "id", o.id))) |->
+                          [id |-> SelectSeq(x.post.orders, LAMBDA o : o.status # OPending /\ ~Has(hnd1, "id", o.id))[i].id, h |-> x.pre.h]]
+    IN [g EXCEPT !.handed = hnd2, !.net = net2, !.grants = gr2, !.earn = earn2, !.claimedNode = @ + (IF Kind(x) = "Claim" /\ Ok(x) THEN -Delta(x, "m_node") ELSE 0),
                  !.dustq = d2.q, !.dustr = d2.r, !.start = FALSE]
 
 \* ---------------------------------------------------------------------------
@@ -111,7 +117,7 @@ Verdict(name, x, g) ==
     [] name = "C11_NothingOverdue"       -> V(TRUE, C11_NothingOverdue(s))
     [] name = "C12_Rescheduled"          -> V(TRUE, C12_Rescheduled(s))
     [] name = "C12_StoredOrderUntouched" -> V(Kind(x) = "Blocks", C12_StoredOrderUntouched(x))
-    [] name = "C12_ResolvedByBound"      -> V(TRUE, C12_ResolvedByBound(s))
+    [] name = "C12_ResolvedByBound"      -> V(TRUE, C12_ResolvedByBound(s, g))
     [] name = "C12_ReplicasAccounted"    -> V(TRUE, C12_ReplicasAccounted(s))
     [] name = "C12_MigrationUntouched"   -> V(Kind(x) = "Blocks", C12_MigrationUntouched(x))
     [] name = "C13_OrderShardsExist"     -> V(TRUE, C13_OrderShardsExist(s))
